@@ -287,7 +287,14 @@ func (s MinPriorityCoinSelector) CoinSelect(targetValue bchutil.Amount, coins []
 				if newMaxInputs > numLow {
 					newMaxInputs = numLow
 				}
-				newMinAvgValueAge := ((s.MinAvgValueAgePerInput * int64(allHigh.Num()+numLow)) - allHigh.TotalValueAge()) / int64(numLow)
+				// Value-age the low coins must contribute, spread over
+				// numLow inputs and rounded up so the overall average
+				// cannot end up below the minimum.
+				neededValueAge := (s.MinAvgValueAgePerInput * int64(allHigh.Num()+numLow)) - allHigh.TotalValueAge()
+				newMinAvgValueAge := neededValueAge / int64(numLow)
+				if neededValueAge > 0 && neededValueAge%int64(numLow) != 0 {
+					newMinAvgValueAge++
+				}
 
 				// find the minimum priority that can be added to set
 				lowSelect, err := (&MinPriorityCoinSelector{
